@@ -17,6 +17,8 @@ components of `check_interfaces` (start, end, middle, cross) from the extreme va
 import importlib.util  # noqa: F401
 import itertools
 
+import numpy as np
+
 import common
 
 META = {
@@ -36,13 +38,12 @@ DYNAMIC = ("c15_note", "c15_thermostat")   # attributes attached to a frame afte
 
 # ----------------------------------------------------------------------------- whole frames
 
-def canon(v):
-    """Canonical, hashable, exact content of an attribute value."""
-    import numpy as np
+def _canon_slow(v):
+    """Canonical, hashable, exact content of an attribute value (general case)."""
     if isinstance(v, np.ndarray):
         if v.dtype == object:
             return ("ndobj", v.shape, canon(v.tolist()))
-        return ("nd", v.shape, str(v.dtype), v.tobytes())
+        return ("nd", v.shape, v.dtype.str, v.tobytes())
     if isinstance(v, (bool, np.bool_)):
         return ("bool", bool(v))
     if isinstance(v, (int, np.integer)):
@@ -50,21 +51,62 @@ def canon(v):
     if isinstance(v, (float, np.floating)):
         return ("float", float(v).hex())
     if isinstance(v, str):
-        return ("str", v)
+        return ("str", str(v))
     if v is None:
         return ("none",)
     if isinstance(v, dict):
-        return ("dict", tuple(sorted((canon(k), canon(x)) for k, x in v.items())))
+        return ("dict", tuple(sorted([(canon(k), canon(x)) for k, x in v.items()])))
     if isinstance(v, (list, tuple)):
-        return (type(v).__name__, tuple(canon(x) for x in v))
+        return ("list" if isinstance(v, list) else "tuple", tuple([canon(x) for x in v]))
     if isinstance(v, (set, frozenset)):
-        return ("set", tuple(sorted(canon(x) for x in v)))
+        return ("set", tuple(sorted([canon(x) for x in v])))
     return ("obj", type(v).__name__, repr(v))
+
+
+_FLAT = (str, int, float, bool, type(None))
+_TUPLES = {}     # id -> (tuple object, canon): only tuples of immutable scalars, the object is kept alive
+
+
+def _canon_tuple(v):
+    hit = _TUPLES.get(id(v))
+    if hit is not None and hit[0] is v:
+        return hit[1]
+    c = ("tuple", tuple([canon(x) for x in v]))
+    if all(type(x) in _FLAT for x in v) and len(_TUPLES) < 100000:
+        _TUPLES[id(v)] = (v, c)
+    return c
+
+
+def _canon_dict(v):
+    try:
+        return ("dict", tuple([(("str", k), canon(v[k])) for k in sorted(v)])) if all(type(k) is str for k in v) \
+            else ("dict", tuple(sorted([(canon(k), canon(x)) for k, x in v.items()])))
+    except TypeError:
+        return ("dict", tuple(sorted([(canon(k), canon(x)) for k, x in v.items()])))
+
+
+_FAST = {
+    float: lambda v: ("float", v.hex()),
+    int: lambda v: ("int", v),
+    bool: lambda v: ("bool", v),
+    str: lambda v: ("str", v),
+    type(None): lambda v: ("none",),
+    tuple: _canon_tuple,
+    list: lambda v: ("list", tuple([canon(x) for x in v])),
+    dict: _canon_dict,
+    np.ndarray: lambda v: ("nd", v.shape, v.dtype.str, v.tobytes()) if v.dtype != object else _canon_slow(v),
+}
+
+
+def canon(v):
+    """Canonical, hashable, exact content of an attribute value (numpy arrays by
+    shape/dtype/bytes, floats by their hex form); exact types take the fast path."""
+    f = _FAST.get(type(v))
+    return f(v) if f else _canon_slow(v)
 
 
 def show(c):
     """Readable form of a canonical value (for messages only)."""
-    import numpy as np
     kind = c[0]
     if kind == "nd":
         return np.frombuffer(c[3], dtype=c[2]).reshape(c[1]).tolist()
@@ -93,14 +135,18 @@ def snap(path):
 
 
 def diff_whole(got, want):
-    for k in sorted(set(got) | set(want)):
+    """All attributes in which two whole frames differ (declared fields first), or None."""
+    if got == want:
+        return None
+    out = []
+    for k in sorted(set(got) | set(want), key=lambda n: (n.startswith("c15_"), n)):
         if k not in got:
-            return f"attribute {k!r} is missing (expected {show(want[k])!r})"
-        if k not in want:
-            return f"unexpected attribute {k!r} = {show(got[k])!r}"
-        if got[k] != want[k]:
-            return f"attribute {k!r} is {show(got[k])!r}, expected {show(want[k])!r}"
-    return None
+            out.append(f"attribute {k!r} is missing (expected {show(want[k])!r})")
+        elif k not in want:
+            out.append(f"unexpected attribute {k!r} = {show(got[k])!r}")
+        elif got[k] != want[k]:
+            out.append(f"attribute {k!r} is {show(got[k])!r}, expected {show(want[k])!r}")
+    return "; ".join(out) if out else None
 
 
 def diff_frames(label, got, want):
@@ -149,7 +195,6 @@ class Frames:
 
     def fill_value(self, name, k):
         """A non-default value for a declared field, determined by the frame number k."""
-        import numpy as np
         default = self.defaults[name]
         known = {
             "config": lambda: (f"file{k}", k),
@@ -215,15 +260,22 @@ class Frames:
             p.phasepoints.append(self.new_frame(o, tag0 + i, revs[i] if revs else False, style))
         return p
 
-    def tag(self, s):
-        """The model's opaque payload: all of vars(frame) except order[0] and vel_rev, interned."""
-        w = whole(s)
+    def tag(self, s, w=None):
+        """The model's opaque payload: all of vars(frame) except order[0] and vel_rev, interned.
+        [w] = whole(s) if the caller has just computed it."""
+        w = dict(whole(s) if w is None else w)
         w.pop("vel_rev", None)
-        try:
-            w["order"] = canon(list(s.order)[1:])
-        except Exception:
+        o = w.get("order")
+        if o is None:
             w["order"] = ("no-order",)
-        key = tuple(sorted(w.items()))
+        elif o[0] in ("list", "tuple"):
+            w["order"] = (o[0], o[1][1:])
+        else:
+            try:
+                w["order"] = canon(list(s.order)[1:])
+            except Exception:
+                w["order"] = ("no-order",)
+        key = frozenset(w.items())
         t = self.tags.get(key)
         if t is None:
             t = self.tags[key] = len(self.tags)
@@ -242,9 +294,10 @@ class Ids:
         self.next = len(self.ids)
         self.keep = list(paths)
 
-    def enc_path(self, p):
+    def enc_path(self, p, ws=None):
+        """Request/answer encoding of a path; [ws] = snap(p) if the caller has just computed it."""
         fr = []
-        for s in p.phasepoints:
+        for n, s in enumerate(p.phasepoints):
             if id(s) not in self.ids:
                 self.ids[id(s)] = len(self.ids)
             try:
@@ -254,7 +307,7 @@ class Ids:
                 o = "?"
             rv = getattr(s, "vel_rev", None)
             rv = str(int(bool(rv))) if isinstance(rv, (bool, int)) or type(rv).__name__ == "bool_" else "?"
-            fr.append(f"{o}:{self.F.tag(s)}:{rv}:{self.ids[id(s)]}")
+            fr.append(f"{o}:{self.F.tag(s, ws[n] if ws else None)}:{rv}:{self.ids[id(s)]}")
         ml = p.maxlen
         return f"{','.join(fr) if fr else '-'}|{ml}|{p.time_origin}"
 
@@ -284,9 +337,10 @@ def case_paste(F, d):
     forw = F.mk_path(f, d["forw_maxlen"], t0=d["t0"], tag0=d["tag_forw"], style=d["style"])
     sb, sf = snap(back), snap(forw)
     ids = Ids(F, back, forw)
-    req = f"paste {ids.enc_path(back)} {ids.enc_path(forw)} {int(ov)} {'N' if m is None else m}"
+    req = f"paste {ids.enc_path(back, sb)} {ids.enc_path(forw, sf)} {int(ov)} {'N' if m is None else m}"
     res = paste_paths(back, forw, overlap=ov, maxlen=m)
-    out = ids.enc_path(res)
+    sr = snap(res)
+    out = ids.enc_path(res, sr)
     # property oracle, straight from the statement
     if m is None:
         m = max(d["back_maxlen"], d["forw_maxlen"])
@@ -301,7 +355,7 @@ def case_paste(F, d):
     elif b and m > 0 and res.phasepoints[0] is not back.phasepoints[-1]:
         err = "pasted path does not begin with the last backward frame"
     else:
-        err = (diff_frames("paste does not keep the frames", snap(res), want)
+        err = (diff_frames("paste does not keep the frames", sr, want)
                or diff_frames("paste changed the backward segment", snap(back), sb)
                or diff_frames("paste changed the forward segment", snap(forw), sf))
     return req, out, err
@@ -312,9 +366,10 @@ def case_reverse(F, d):
     p = F.mk_path(s, ml, t0=3, revs=revs, style=d["style"])
     sp = snap(p)
     ids = Ids(F, p)
-    req = f"reverse {ids.next} {ids.enc_path(p)} {int(rv)}"
+    req = f"reverse {ids.next} {ids.enc_path(p, sp)} {int(rv)}"
     r = p.reverse(None, rev_v=rv)
-    out = ids.enc_path(r)
+    sr = snap(r)
+    out = ids.enc_path(r, sr)
     err = diff_frames("reverse changed the original path", snap(p), sp)
     if not err and len(s) <= ml:
         exp = [(o, (not v) if rv else v) for o, v in zip(reversed(s), reversed(revs))]
@@ -323,7 +378,7 @@ def case_reverse(F, d):
             err = f"reverse gave {got}, expected {exp}"
         else:
             err = diff_frames("a single reverse must reverse the frame order and change nothing but the velocity flag",
-                              snap(r), [flipped(w, rv) for w in reversed(sp)])
+                              sr, [flipped(w, rv) for w in reversed(sp)])
         if not err:
             rr = r.reverse(None, rev_v=rv)
             err = diff_frames("reversing twice does not restore the frames", snap(rr), sp)
@@ -338,12 +393,13 @@ def case_copy(F, d):
     p = F.mk_path(s, ml, t0=3, revs=revs, style=d["style"])
     sp = snap(p)
     ids = Ids(F, p)
-    req = f"copy {ids.next} {ids.enc_path(p)}"
+    req = f"copy {ids.next} {ids.enc_path(p, sp)}"
     c = p.copy()
-    out = ids.enc_path(c)
+    sc = snap(c)
+    out = ids.enc_path(c, sc)
     err = diff_frames("copy changed the original path", snap(p), sp)
     if not err and len(s) <= ml:
-        err = diff_frames("the frames of a copied path differ from the original's", snap(c), sp)
+        err = diff_frames("the frames of a copied path differ from the original's", sc, sp)
     if not err:
         touched = reassign_all(c)
         err = diff_frames("re-assigning a field of a copied frame changed the original", snap(p), sp)
@@ -358,11 +414,12 @@ def case_iadd(F, d):
     sp, sq = snap(p), snap(q)
     own = list(p.phasepoints)
     ids = Ids(F, p, q)
-    req = f"iadd {ids.next} {ids.enc_path(p)} {ids.enc_path(q)}"
+    req = f"iadd {ids.next} {ids.enc_path(p, sp)} {ids.enc_path(q, sq)}"
     p += q
-    out = ids.enc_path(p)
+    sr = snap(p)
+    out = ids.enc_path(p, sr)
     want = sp + sq[:max(ml - len(s), 0)]
-    err = (diff_frames("self += other: frames of the sum", snap(p), want)
+    err = (diff_frames("self += other: frames of the sum", sr, want)
            or diff_frames("self += other changed the other path", snap(q), sq))
     if not err and any(a is not b for a, b in zip(p.phasepoints, own)):
         err = "self += other replaced frames of self"
@@ -540,16 +597,36 @@ def run(ctx):
     outs = runner.run(reqs)
     corr_fail = 0
     stmt_fail = 0
+    first_mark = len(ctx.violations)
+    seen_ops = set()
     for req, mo, (io, err, desc) in zip(reqs, outs, metas):
         ctx.count(req, nontrivial=True)
         if err:
             stmt_fail += 1
-            ctx.violation(f"C15 statement fails on the implementation: {err}", {"case": desc, "impl": io, "model": mo, "request": req}, True)
+            if stmt_fail > 200 and desc["op"] in seen_ops:
+                continue      # only the first 20 are written anyway; keep one of every operation
+            seen_ops.add(desc["op"])
+            ctx.violation(f"C15 statement fails on the implementation: {err}",
+                          {"case": desc, "impl": io, "model": mo, "request": req,
+                           "frames": "System objects built by checks/c15.py Frames.new_frame(order, k, vel_rev, style): style 'full' = every field of "
+                                     "vars(System()) non-default + attached c15_note/c15_thermostat, 'sparse' = order/config/vel_rev/vpot only; "
+                                     "k = position (+ tag offset of the segment); --replay rebuilds them and re-runs the real code"}, True)
         elif mo != io:
             corr_fail += 1
             if corr_fail <= 3:
                 ctx.violation(f"correspondence model/implementation broken for {desc['op']} (property oracle found no failing input among {len(reqs)} cases)",
                               {"correspondence": "c15 runner vs infretis.classes.path", "case": desc, "impl": io, "model": mo, "request": req}, False)
+    # report one failing input of every operation before the further ones of the same operation
+    mine = ctx.violations[first_mark:]
+    firsts, rest, ops = [], [], set()
+    for v in mine:
+        op = v[1].get("case", {}).get("op") if v[2] else None
+        if v[2] and op not in ops:
+            ops.add(op)
+            firsts.append(v)
+        else:
+            rest.append(v)
+    ctx.violations[first_mark:] = firsts + [v for v in rest if v[2]] + [v for v in rest if not v[2]]
     # every declared field of the real System class (and the attached ones) must have been exercised
     touched = set()
     for _, _, desc in metas:
